@@ -12,7 +12,11 @@
 (*     global value  x  own value  x  opt-out switch                       *)
 (* for each of the five settings (the four booleans of `vals` =            *)
 (* <<filtering, safe search, safe browsing, parental>> under the switch    *)
-(* `own`, the blocked-services set under the switch `bs`) and prints, per  *)
+(* `own`, the blocked-services set under the switch `bs`), times the state *)
+(* of the two blocked-services schedules at the time of the request (no    *)
+(* schedule / request inside the pause window / schedule but request       *)
+(* outside the window, for the client's own schedule; none / inside for    *)
+(* the global one), and prints, per                                        *)
 (* combination, what ClientsCore!Effective demands for a request from the  *)
 (* client's address (hit) and from an address nobody owns (miss).  The Go  *)
 (* harness builds the client the way package home does (the per-client     *)
@@ -31,18 +35,26 @@ CSvcs  == {{}, {"a"}, {"b"}}        \* the client's own: none / same as global /
 
 Me == <<"ip", 5, 0>>
 
-Vector(g, gs, v, cs, own, bs) ==
-    LET c == [name |-> "n1", ids |-> {Me}, own |-> own, bs |-> bs, vals |-> v, svcs |-> cs]
-        G == [vals |-> g, svcs |-> gs]
-    IN [g |-> g, gs |-> gs, v |-> v, cs |-> cs, own |-> own, bs |-> bs,
+\* State of a blocked-services schedule when the request arrives.  "none" and
+\* "out" are the same for the spec (no pause in effect) and differ in how the
+\* harness builds the schedule (empty / non-empty but elsewhere in the week).
+CSched == {"none", "in", "out"}
+GSched == {"none", "in"}
+
+Vector(g, gs, gp, v, cs, cp, own, bs) ==
+    LET c == [name |-> "n1", ids |-> {Me}, own |-> own, bs |-> bs, vals |-> v, svcs |-> cs,
+              pause |-> (cp = "in")]
+        G == [vals |-> g, svcs |-> gs, pause |-> (gp = "in")]
+    IN [g |-> g, gs |-> gs, gp |-> gp, v |-> v, cs |-> cs, cp |-> cp, own |-> own, bs |-> bs,
         hit  |-> Effective({c}, <<>>, G, NoId, 5),
         miss |-> Effective({c}, <<>>, G, NoId, 12)]
 
 Init == st = "pick" /\ vec = <<>>
 
 Pick == /\ st = "pick"
-        /\ \E g \in Bools4, v \in Bools4, own \in BOOLEAN, bs \in BOOLEAN, gs \in GSvcs, cs \in CSvcs :
-             /\ vec' = Vector(g, gs, v, cs, own, bs)
+        /\ \E g \in Bools4, v \in Bools4, own \in BOOLEAN, bs \in BOOLEAN, gs \in GSvcs, cs \in CSvcs,
+              gp \in GSched, cp \in CSched :
+             /\ vec' = Vector(g, gs, gp, v, cs, cp, own, bs)
              /\ PrintT(<<"@@V", ToJson(vec')>>)
         /\ st' = "done"
 
@@ -52,8 +64,13 @@ Spec == Init /\ [][Pick]_svars
 Done == st = "done"
 EachSettingOwnIffOptedOut ==
     Done => /\ \A i \in 1..4 : vec.hit.vals[i] = IF vec.own THEN vec.v[i] ELSE vec.g[i]
-            /\ vec.hit.svcs = IF vec.bs THEN vec.cs ELSE vec.gs
+            /\ vec.hit.svcs = IF vec.bs THEN (IF vec.cp = "in" THEN {} ELSE vec.cs)
+                                       ELSE (IF vec.gp = "in" THEN {} ELSE vec.gs)
             /\ vec.hit.who = "n1"
+\* Opted out and inside its own pause: nothing is blocked, whatever the global list.
+OptedOutAndPausedBlocksNothing ==
+    Done /\ vec.bs /\ vec.cp = "in" => vec.hit.svcs = {}
 ForeignRequestGetsGlobal ==
-    Done => vec.miss.who = "" /\ vec.miss.vals = vec.g /\ vec.miss.svcs = vec.gs
+    Done => /\ vec.miss.who = "" /\ vec.miss.vals = vec.g
+            /\ vec.miss.svcs = IF vec.gp = "in" THEN {} ELSE vec.gs
 =============================================================================
